@@ -149,6 +149,8 @@ class Translator:
             # list arithmetic: repetition / concatenation
             if isinstance(op, ast.Mult):
                 lst, k = (a, b) if isinstance(a, sp.Tuple) else (b, a)
+                if getattr(k, "is_Integer", False) and 0 <= k <= 16:
+                    return sp.Tuple(*(list(lst) * int(k)))
                 return sp.Function("repeat")(lst, k)
             if isinstance(op, ast.Add):
                 return sp.Function("concat")(a, b)
@@ -216,7 +218,7 @@ class Translator:
         mm = minmax_of_ifexp(n, self)
         if mm is not None:
             return mm
-        return sp.Piecewise((self.tr(n.body), self.tr(n.test)), (self.tr(n.orelse), True))
+        return sp.Piecewise((self.tr(n.body), as_bool(self.tr(n.test))), (self.tr(n.orelse), True))
 
     def t_Tuple(self, n):
         return sp.Tuple(*[self.tr(e) for e in n.elts])
